@@ -362,7 +362,7 @@ func genConfig(t *rapid.T, tr memfs.Tree, o cfgOpts) walkmodel.Config {
 	cfg.UseGitignore = rapid.Bool().Draw(t, "use_gitignore")
 	cfg.ReadSymlinks = rapid.Bool().Draw(t, "read_symlinks")
 	if o.AllowPaths && rapid.IntRange(0, 1).Draw(t, "use_paths") == 0 {
-		n := rapid.IntRange(1, 2).Draw(t, "n_paths")
+		n := rapid.IntRange(1, 3).Draw(t, "n_paths")
 		for i := 0; i < n; i++ {
 			switch rapid.IntRange(0, 9).Draw(t, "path_kind") {
 			case 0:
